@@ -69,6 +69,7 @@ unsafe fn env_reset<RW: QueueRW<Pay>>(w: &World<RW>, mpmc: bool, budget: usize, 
     ENV_BUDGET = budget;
     ENV_ENABLED = enabled;
     ENV_TAKEN = [0; 8];
+    ENV_PER_POINT = 1;
     G_ME_SENDER = false;
     G_MY_STREAM = usize::MAX;
     G_MY_CLAIMS = 0;
@@ -120,7 +121,11 @@ unsafe fn env_protocol<RW: QueueRW<Pay>>(q: *const MultiQueue<RW, Pay>, kind: u8
     }
     let q = &*q;
     let n = q.capacity as usize;
-    if ENV_BUDGET > 0 && rt::oracle_bool() {
+    let mut turn = 0;
+    while turn < ENV_PER_POINT {
+        if !(ENV_BUDGET > 0 && rt::oracle_bool()) {
+            break;
+        }
         let act = rt::oracle_u8() as u32;
         rt::assume(act < 6 && enabled(act));
         let done = if act == A_PUBLISH {
@@ -146,6 +151,7 @@ unsafe fn env_protocol<RW: QueueRW<Pay>>(q: *const MultiQueue<RW, Pay>, kind: u8
         } else {
             ENV_TAKEN[2] += 1;
         }
+        turn += 1;
     }
     // my validating position load (shared broadcast consumer): it will read the position as it is now
     if kind == K_LOAD && G_MY_STREAM != usize::MAX && addr == G_MY_POS_CELL {
